@@ -647,6 +647,25 @@ def c04_family(rng, n):
                             {'events': ev, 'outcome': 'ok', 'nerr': 0},
                             {'family': 'c04-per-iteration-described', 'mode': mode, 'loop': loop, 'selected': sel,
                              'stale': stale}))
+    # ... and when the loop variable does not exist at all before the loop (fix c7066aa: the up-front evaluation
+    # for the notification must not fail the step)
+    for sel in ([2, 4], [1]):
+        for mode in ('run', 'skip'):
+            for loop in ('foreach', 'while'):
+                name = 'i' if loop == 'foreach' else 'whileCounter'
+                st = probe('P')
+                st['description'] = 'described step'
+                st[loop] = items if loop == 'foreach' else {'max': 4}
+                st[mode] = {'py': {'op': 'in', 'a': {'n': name}, 'b': {'n': 'sel'}}}
+                ran = [x for x in items if (x in sel) == (mode == 'run')]
+                ev = [('P', x, ANY, ANY) if loop == 'foreach' else ('P', ANY, x, ANY) for x in ran]
+                if loop == 'while':
+                    # whileCounter is set to 0 before the loop starts in any case? no: the preview runs first
+                    pass
+                out.append((prog_of([['steps', [st]]], ctx={'sel': sel}),
+                            {'events': ev, 'outcome': 'ok', 'nerr': 0},
+                            {'family': 'c04-per-iteration-described', 'mode': mode, 'loop': loop, 'selected': sel,
+                             'stale': None, 'site': 'run_step.description-preview'}))
     # the decision changes because the body itself changes the input between iterations
     st = probe('Q', set=D(go=False))
     st['foreach'] = [1, 2, 3]
